@@ -104,6 +104,41 @@ def run(repo: Repo, rep: Report, tier: str) -> None:
             rep.check(ok, "C12-R2", f"{m.short}: an existing relay is offered only after can_route_network", "; ".join(gs)[:150] if ok else
                       f"a relay found by {call_name(srcs[0]) if isinstance(srcs[0], ast.Call) else 'table lookup'} is returned under `{'; '.join(gs)[:110] or 'no test'}`: a pole that already carries another network on that colour joins the two networks", m.loc(r_))
     rep.floor("C12-R2", "relay reuse sites", n_sites, 2)
+    # the same obligation stated at the recording end: whatever pole gets a network recorded on it (add_network) was either created or filtered by a routine
+    # that is handed the network id (covered above), is a hop of the path search (which filters by can_route_network), or is tested right here; a pole
+    # fetched by a raw lookup (no network id in the helper's parameters) and recorded without the test joins two networks on that colour
+    n_rec = 0
+    for m in net.methods.values():
+        du_ = DefUse(m)
+        pm = parents_map(m.node)
+        for c in calls_in(m.node, "add_network"):
+            if not (isinstance(c.func, ast.Attribute) and isinstance(c.func.value, ast.Name)):
+                rep.unknown("C12-R2", f"{m.short}: add_network on an expression that is not a local", norm(c.func)[:80], m.loc(c))
+                continue
+            n_rec += 1
+            recv = c.func.value.id
+            raw = []
+            for v in du_.expand(c.func.value):
+                if isinstance(v, ast.Call) and isinstance(v.func, ast.Attribute) and norm(v.func.value) == "self" and v.func.attr in net.methods:
+                    if "network_id" not in net.methods[v.func.attr].params:
+                        raw.append(v.func.attr)
+                elif isinstance(v, ast.Call) and call_name(v) == "RelayNode":
+                    pass
+                else:
+                    raw.append(norm(v)[:40])
+            in_path_loop = False
+            q = pm.get(c)
+            while q is not None and q is not m.node:
+                if isinstance(q, ast.For) and "self._find_path_through_existing_relays(" in canon(m).text(q.iter):
+                    in_path_loop = True
+                q = pm.get(q)
+            gs = [norm(t) for t, pol in guard_chain(m, c, pm) if pol]
+            tested = any(f"{recv}.can_route_network(network_id, wire_color)" in g for g in gs)
+            ok = not raw or in_path_loop or tested
+            rep.check(ok, "C12-R2", f"{m.short}: a network is recorded only on a pole that was filtered or created for it",
+                      ("hop of the filtered path search" if in_path_loop else "tested here" if tested else "pole comes from a routine that is handed the network id") if ok else
+                      f"pole obtained by {', '.join(sorted(set(raw)))} is recorded under `{'; '.join(gs)[:110] or 'no test'}` without can_route_network: a pole that already carries another network on that colour joins the two", m.loc(c))
+    rep.floor("C12-R2", "add_network recording sites", n_rec, 2)
     rs = net.methods["route_signal"]
     ok = any(isinstance(n, ast.For) and "self._find_path_through_existing_relays(" in canon(rs).text(n.iter) and any(call_name(x) == "add_network" for x in calls_in(n)) for n in walk_local(rs.node))
     rep.check(ok, "C12-R2", "a path through existing relays records the network on every relay used", "for relay in existing_path: add_network" if ok else "missing", rs.loc())
